@@ -18,7 +18,7 @@ Section Logical.
   Proof. apply pages_for_divisible, Hmod. Qed.
 
   Let Hlen : len (paginate log) = len log / 1020 * 1024.
-  Proof. rewrite paginate_length, Hpages. reflexivity. Qed.
+  Proof. rewrite len_paginate, Hpages. reflexivity. Qed.
 
   Let Hdiv : len (paginate log) / 1024 = len log / 1020.
   Proof. rewrite Hlen. lia. Qed.
